@@ -165,7 +165,8 @@ class Engine(object):
         ex.old_state = st.copy()
         res.pre = list(st.pc)
         outs = ex.exec_block(fi.node.body, st)
-        outs = self.merge_exits(outs)
+        if c.merge_exits:
+            outs = self.merge_exits(outs)
         short = c.qual.split(':', 1)[1]
         modname = fi.modname
         for o in outs:
